@@ -811,14 +811,23 @@ type seqConn struct {
 	ct, st int64
 	hrr    bool
 	flags  string
+	ops    string // pre-handshake calls, '.'-separated: B BuildHandshakeState, R SetClientRandom, S SetSNI(same name), A edit of the ALPN extension; "-" = Handshake directly
 }
 
 func parseSeqConn(s string) (c seqConn, ok bool) {
 	p := strings.Split(s, "/")
-	if len(p) != 7 {
+	if len(p) != 7 && len(p) != 8 {
 		return c, false
 	}
-	c.id, c.sn, c.flags = p[0], p[1], p[6]
+	c.id, c.sn, c.flags, c.ops = p[0], p[1], p[6], "-"
+	if len(p) == 8 {
+		c.ops = p[7]
+		for _, o := range strings.Split(c.ops, ".") {
+			if o != "B" && o != "R" && o != "S" && o != "A" && o != "-" {
+				return c, false
+			}
+		}
+	}
 	var h int
 	if _, err := fmt.Sscanf(p[2]+" "+p[3]+" "+p[4]+" "+p[5], "%d %d %d %d", &c.smax, &c.ct, &c.st, &h); err != nil {
 		return c, false
@@ -831,7 +840,44 @@ func parseSeqConn(s string) (c seqConn, ok bool) {
 }
 
 func (c seqConn) String() string {
-	return fmt.Sprintf("%s/%s/%d/%d/%d/%s/%s", c.id, c.sn, c.smax, c.ct, c.st, b2i(c.hrr), c.flags)
+	base := fmt.Sprintf("%s/%s/%d/%d/%d/%s/%s", c.id, c.sn, c.smax, c.ct, c.st, b2i(c.hrr), c.flags)
+	if c.ops == "" || c.ops == "-" {
+		return base
+	}
+	return base + "/" + c.ops
+}
+
+// preOps runs the documented pre-handshake calls of one connection on the UConn.
+func preOps(u *tls.UConn, ops string, name string, r *Rng) error {
+	if ops == "" || ops == "-" {
+		return nil
+	}
+	for _, o := range strings.Split(ops, ".") {
+		switch o {
+		case "B":
+			if err := u.BuildHandshakeState(); err != nil {
+				return err
+			}
+		case "R":
+			if err := u.SetClientRandom(r.Bytes(32)); err != nil {
+				return err
+			}
+		case "S":
+			u.SetSNI(name)
+		case "A":
+			for _, e := range u.Extensions {
+				if a, ok := e.(*tls.ALPNExtension); ok {
+					a.AlpnProtocols = append(append([]string(nil), a.AlpnProtocols...), "verif/1")
+				}
+			}
+		}
+	}
+	return nil
+}
+
+// nBuilds: BuildHandshakeState calls of a connection (Handshake always builds once more).
+func nBuilds(ops string) int {
+	return strings.Count(ops, "B") + 1
 }
 
 // hrrGroup picks a group the hello lists without sending a share for it (server-supported).
@@ -999,6 +1045,15 @@ func genResumeSeq(r *Rng, i int, tier string) string {
 			s += d
 		}
 	}
+	// pre-handshake calls: explicit BuildHandshakeState, documented edits, rebuilds
+	opsPool := []string{"B", "B.B", "B.R", "B.S", "B.A", "B.R.B", "B.R.A", "B.A.S", "B.S.R", "B.B.R", "B.A.B.R"}
+	if mode == 0 || mode == 2 || mode == 3 || r.Intn(3) == 0 {
+		for k := range conns {
+			if r.Intn(2) == 0 {
+				conns[k].ops = Pick(r, opsPool)
+			}
+		}
+	}
 	ss := make([]string, len(conns))
 	for k, c := range conns {
 		ss[k] = c.String()
@@ -1016,6 +1071,25 @@ func serverSentHRR(wire []byte) bool {
 		return false
 	}
 	return bytes.Equal(rs[0].Payload[6:38], c19HrrRandom)
+}
+
+// hrrTranscriptPrefix: message_hash(first hello) || HelloRetryRequest, what precedes the second
+// hello in the binder transcript (RFC 8446 4.4.1).
+func hrrTranscriptPrefix(hashSize int, ch1 []byte, serverWire []byte) []byte {
+	h := c19Hash(hashSize)()
+	h.Write(ch1)
+	sum := h.Sum(nil)
+	out := append([]byte{254, 0, 0, byte(len(sum))}, sum...)
+	rs := splitRecords(serverWire)
+	if len(rs) == 0 || rs[0].Type != 22 || len(rs[0].Payload) < 4 {
+		return out
+	}
+	pl := rs[0].Payload
+	n := int(pl[1])<<16 | int(pl[2])<<8 | int(pl[3])
+	if len(pl) < 4+n {
+		return out
+	}
+	return append(out, pl[:4+n]...)
 }
 
 func peekEntry(cache *logCache, key string, E int64) string {
@@ -1077,9 +1151,11 @@ func execResumeSeq(in KV) string {
 				peekTicket, peekSecret, peekAgeAdd = f.Ticket, f.Secret, f.AgeAdd
 			}
 		}
-		_ = peekSecret
 		cache.takeLog()
-		res := runHS(HSOpts{ID: id.id, Spec: id.spec, ClientCfg: cli, ServerCfg: srv, AppData: []byte("ping")})
+		opRng := NewRng(in.U64("seed") ^ uint64(len(recs)+1)*0x9e3779b97f4a7c15)
+		ops, name := c.ops, c19Names[c.sn]
+		res := runHS(HSOpts{ID: id.id, Spec: id.spec, ClientCfg: cli, ServerCfg: srv, AppData: []byte("ping"),
+			Prepare: func(u *tls.UConn) error { return preOps(u, ops, name, opRng) }})
 		cerr := res.ClientErr
 		if cerr == nil {
 			cerr = res.PrepareErr
@@ -1111,13 +1187,22 @@ func execResumeSeq(in KV) string {
 				rec += fmt.Sprintf(";idm%s:%s;pos%s:%d;n%s:%d;nid%s:%d;idl%s:%d;bl%s:%d;xl%s:%d;dage%s:%d;xok%s:%s", sfx, b2i(peekTicket != nil && bytes.Equal(o.ticket, peekTicket)),
 					sfx, o.pos, sfx, o.n, sfx, o.nid, sfx, len(o.ticket), sfx, len(o.binder), sfx, o.xl, sfx, o.age-peekAgeAdd, sfx,
 					b2i(o.xl == tls.VerifPskExtLen([]tls.PskIdentity{{Label: o.ticket}}, [][]byte{o.binder})))
+				// the binder, recomputed independently over the bytes actually sent
+				if peekSecret != nil && len(ch) >= o.bindLen {
+					var prefix []byte
+					if k == 1 {
+						prefix = hrrTranscriptPrefix(len(o.binder), chs[0], res.ServerWire)
+					}
+					want := binderFor(len(o.binder), peekSecret, prefix, ch[:len(ch)-o.bindLen])
+					rec += fmt.Sprintf(";bv%s:%s", sfx, b2i(hmac.Equal(want, o.binder)))
+				}
 			}
 			if o.dupSess {
 				rec += ";dup" + sfx + ":1"
 			}
 		}
 		if id.rec != nil && id.rec.called > 0 {
-			rec += fmt.Sprintf(";pl:%d.%d.%s", len(id.rec.before), len(id.rec.after), b2i(len(chs) > 0 && bytes.Equal(id.rec.after, chs[0])))
+			rec += fmt.Sprintf(";pl:%d.%d.%s;pn:%d", len(id.rec.before), len(id.rec.after), b2i(len(chs) > 0 && bytes.Equal(id.rec.after, chs[0])), id.rec.called)
 		}
 		recs = append(recs, rec)
 	}
